@@ -76,11 +76,20 @@ type bvVal struct {
 	Sub    map[string]*bvVal // other fields of a struct value
 	View   *bvView
 	Out    *bvOut
+	Big    *bigV // *math/big.Int value in closed form (pointer semantics)
 	Opaque string
 }
 
+// bigV is an arbitrary-precision integer known only in closed form.
+type bigV struct {
+	Lin  *Term  // exact value as a linear term (small values)
+	Pow  *Term  // 2^Pow
+	Mask *MaskV // N ones starting at Lo
+	Why  string // why the value is unknown
+}
+
 func (v *bvVal) isInt() bool {
-	return v != nil && v.Opaque == "" && v.Fields == nil && v.View == nil && v.Out == nil
+	return v != nil && v.Opaque == "" && v.Fields == nil && v.View == nil && v.Out == nil && v.Big == nil
 }
 
 type bvSite struct {
@@ -133,7 +142,7 @@ func (m *cloneMemo) val(v *bvVal) *bvVal {
 	if v == nil {
 		return nil
 	}
-	if v.Fields == nil && v.Sub == nil && v.View == nil && v.Out == nil {
+	if v.Fields == nil && v.Sub == nil && v.View == nil && v.Out == nil && v.Big == nil {
 		return v // immutable
 	}
 	if n, ok := m.vals[v]; ok {
@@ -141,6 +150,10 @@ func (m *cloneMemo) val(v *bvVal) *bvVal {
 	}
 	n := &bvVal{BV: v.BV, Opaque: v.Opaque}
 	m.vals[v] = n
+	if v.Big != nil {
+		b := *v.Big
+		n.Big = &b
+	}
 	if v.Fields != nil {
 		n.Fields = map[string]BV{}
 		for k, x := range v.Fields {
@@ -1022,6 +1035,9 @@ func (bi *bvInterp) call(p *bvPath, x *ast.CallExpr) *bvVal {
 				}
 				return &bvVal{Opaque: "len"}
 			case "new":
+				if types.TypeString(bi.info.TypeOf(x.Args[0]), nil) == "math/big.Int" {
+					return &bvVal{Big: &bigV{Lin: Const(0)}}
+				}
 				if st := structOf(bi.info.TypeOf(x.Args[0])); st != nil {
 					return bi.zeroStruct(st)
 				}
@@ -1151,6 +1167,11 @@ func (bi *bvInterp) call(p *bvPath, x *ast.CallExpr) *bvVal {
 			}
 		}
 	}
+	if pkg == "math/big" {
+		if v := bi.bigCall(p, x, callee, recvExpr); v != nil {
+			return v
+		}
+	}
 	fi := bi.w.FuncOf(callee)
 	if fi == nil {
 		for _, a := range x.Args {
@@ -1230,4 +1251,105 @@ func bvKeys(m map[string]BV) []string {
 	}
 	sort.Strings(ks)
 	return ks
+}
+
+// bigCall models the math/big operations the mask builder uses, on closed forms.
+func (bi *bvInterp) bigCall(p *bvPath, x *ast.CallExpr, callee *types.Func, recvExpr ast.Expr) *bvVal {
+	c := p.Ctx
+	arg := func(i int) *bvVal {
+		if i < len(x.Args) {
+			return bi.expr(p, x.Args[i])
+		}
+		return &bvVal{Opaque: "missing"}
+	}
+	lin := func(v *bvVal) *Term {
+		if v.isInt() {
+			return c.linOf(v.BV)
+		}
+		return nil
+	}
+	if callee.Name() == "NewInt" && recvExpr == nil {
+		if l := lin(arg(0)); l != nil {
+			return &bvVal{Big: &bigV{Lin: l}}
+		}
+		return &bvVal{Big: &bigV{Why: "big.NewInt of a value that is not a linear term"}}
+	}
+	if recvExpr == nil {
+		return nil
+	}
+	rv := bi.expr(p, recvExpr)
+	if rv.Big == nil {
+		return nil
+	}
+	set := func(n bigV) *bvVal {
+		*rv.Big = n
+		return rv
+	}
+	unknown := func(why string) *bvVal { return set(bigV{Why: why}) }
+	switch callee.Name() {
+	case "Lsh":
+		a, k := arg(0), arg(1)
+		if a.Big == nil {
+			return unknown("Lsh of a non-big value")
+		}
+		src := *a.Big
+		kl := lin(k)
+		if kl == nil {
+			why := "shift count is not a known linear value"
+			if k.isInt() && k.BV.Why != "" {
+				why += " (" + k.BV.Why + ")"
+			}
+			return unknown(why)
+		}
+		if !c.prove(Const(0), kl) {
+			return unknown(fmt.Sprintf("shift count %v not provably >= 0", kl))
+		}
+		switch {
+		case src.Why != "":
+			return unknown(src.Why)
+		case src.Lin != nil && src.Lin.IsConst() && src.Lin.C == 1:
+			return set(bigV{Pow: kl})
+		case src.Lin != nil && src.Lin.IsZero():
+			return set(bigV{Lin: Const(0)})
+		case src.Pow != nil:
+			return set(bigV{Pow: src.Pow.Add(kl)})
+		case src.Mask != nil:
+			return set(bigV{Mask: &MaskV{Lo: src.Mask.Lo.Add(kl), N: src.Mask.N}})
+		}
+		return unknown("left shift of a value without closed form")
+	case "Sub":
+		a, b := arg(0), arg(1)
+		if a.Big != nil && b.Big != nil && a.Big.Pow != nil && b.Big.Lin != nil && b.Big.Lin.IsConst() && b.Big.Lin.C == 1 {
+			return set(bigV{Mask: &MaskV{Lo: Const(0), N: a.Big.Pow}})
+		}
+		if a.Big != nil && b.Big != nil && a.Big.Lin != nil && b.Big.Lin != nil {
+			return set(bigV{Lin: a.Big.Lin.Sub(b.Big.Lin)})
+		}
+		return unknown("big subtraction outside the closed forms (2^n - 1)")
+	case "Set":
+		if a := arg(0); a.Big != nil {
+			return set(*a.Big)
+		}
+	case "SetUint64", "SetInt64":
+		a := arg(0)
+		if a.isInt() {
+			switch {
+			case a.BV.Mask != nil:
+				return set(bigV{Mask: a.BV.Mask})
+			case a.BV.Pow != nil:
+				return set(bigV{Pow: a.BV.Pow})
+			case c.linOf(a.BV) != nil:
+				return set(bigV{Lin: c.linOf(a.BV)})
+			}
+			why := a.BV.Why
+			if why == "" {
+				why = "machine-word value without closed form"
+			}
+			return unknown(why)
+		}
+	case "Or", "Add":
+		// two adjacent masks etc. are not needed today
+		return unknown("big " + callee.Name() + " outside the closed forms")
+	}
+	return nil
 }
